@@ -132,7 +132,11 @@ class Gen:
         self.ops += 1
         sem = "most" if rng.random() < self.most else "least"
         if k == "step":
-            return {"k": "step", "val": gen_value(rng), "sem": sem}
+            n = {"k": "step", "val": gen_value(rng), "sem": sem}
+            if rng.random() < 0.3:  # equal container payloads in several operations, updated in place by the workflow
+                n["val"] = rng.choice([[], {}, [1], {"a": []}, [[]]])
+                n["mutate"] = True
+            return n
         if k == "fstep":  # failing step caught by try
             cls = rng.choice(["ValueError", "UserErr", "KeyError"])
             n = {"k": "step", "script": [{"do": "fail", "cls": cls, "msg": "m%d" % rng.randrange(10)}], "sem": sem,
